@@ -115,6 +115,23 @@ class Run:
         for d in s.get("defines", []): cc.append("-D" + d)
         cc += ["-include", VERIF + "/include/verif_prelude.h"]
         for h in s.get("includes", []): cc += ["-include", os.path.join(VERIF, h)]
+        # bounded runs only: buffer-size constants of src/snoopy.h scaled down in a verbatim per-run copy (cbmc's array encoding
+        # makes multi-KiB buffers with symbolic-offset accesses intractable: measured 15 s at 64 bytes, 111 s at 1024, >10 min at 4096).
+        # Function bodies are untouched; the scaling is part of the stated bound and never used for unbounded (U) runs.
+        scaled_dir = None
+        if s.get("scale"):
+            if self.kind != "B": self.error = "constant scaling is only allowed in bounded runs"; return
+            scaled_dir = os.path.join(tmp, "scaled"); os.makedirs(scaled_dir, exist_ok=True)
+            h = open(os.path.join(REPO, "src/snoopy.h")).read()
+            for name, val in s["scale"].items():
+                h, n = re.subn(r"(#define\s+%s\s+)\S+" % re.escape(name), r"\g<1>%s" % val, h)
+                if n != 1: self.error = "constant %s not found exactly once in src/snoopy.h" % name; self.drift = True; return
+            open(os.path.join(scaled_dir, "snoopy.h"), "w").write(h)
+            inc = ["-I" + scaled_dir] + inc
+            cc = ["goto-cc", "-DHAVE_CONFIG_H", "-DSNOOPY_VERIF_CBMC"] + inc + ["--function", entry]
+            for d_ in s.get("defines", []): cc.append("-D" + d_)
+            cc += ["-include", VERIF + "/include/verif_prelude.h"]
+            for h_ in s.get("includes", []): cc += ["-include", os.path.join(VERIF, h_)]
         srcs = []
         for f in s.get("verif_sources", []): srcs.append(os.path.join(VERIF, f))
         for f in s.get("gen_sources", []): srcs.append(os.path.join(tmp, f))
@@ -122,6 +139,8 @@ class Run:
             p = os.path.join(REPO, f)
             if not os.path.exists(p):
                 self.error = "source file missing in working tree: " + f; self.drift = True; return
+            if scaled_dir and os.path.dirname(f) == "src":
+                q = os.path.join(scaled_dir, os.path.basename(f)); shutil.copy(p, q); p = q     # verbatim copy next to the scaled snoopy.h
             srcs.append(p)
         a = os.path.join(tmp, "a.gb")
         cmd = cc + srcs + ["-o", a]
@@ -208,6 +227,18 @@ def trace_inputs(trace):
                 v = st.get("value", {})
                 vals[lhs] = v.get("data", v.get("name"))
     return vals
+
+
+def nondet_tape(trace):
+    """ordered values returned by nondet_*() along the counterexample (for native harness replay)"""
+    out = []
+    for st in trace:
+        if st.get("stepType") == "assignment" and not st.get("hidden"):      # the hidden step is the declaration's default value
+            lhs = st.get("lhs", "")
+            m = re.match(r"return_value_nondet_(\w+?)(\$\d+)?$", lhs)
+            if m:
+                v = st.get("value", {}); out.append((m.group(1), v.get("data", v.get("name"))))
+    return out
 
 
 def trace_tail(trace, n=40):
@@ -355,7 +386,7 @@ def main():
             rp = os.path.join(VERIF, "replays", prop, safe + ".json")
             doc = {"property": prop, "run": run.id, "obligation": r["property"], "description": r["description"], "site": site_of(r),
                    "source_location": r.get("sourceLocation"), "kind": run.kind, "bound": run.s.get("bound"),
-                   "inputs_from_counterexample": inputs, "trace_tail": trace_tail(trace) if trace else [],
+                   "inputs_from_counterexample": inputs, "trace_tail": trace_tail(trace) if trace else [], "nondet_tape": nondet_tape(trace) if trace else [], "run_spec": run.s,
                    "cbmc_cmd": " ".join(getattr(run, "cbmc_cmd", [])), "verifier_output": "[%s] %s: %s" % (r["property"], r["description"], r["status"]),
                    "other_failed_obligations_in_this_run": ["[%s] %s @ %s" % (x["property"], x["description"], site_of(x)) for x in unknown[1:60]]}
             json.dump(doc, open(rp, "w"), indent=1)
